@@ -1,7 +1,7 @@
 use crate::{
-    program::{Program, ProgramLocation},
+    program::{Program, ProgramLocation, NESTING_LIMIT},
     symbol::Symbol,
-    InterpreterError, SyntaxError, Token, TracedInterpreterError,
+    InterpreterError, OutOfMemoryError, SyntaxError, Token, TracedInterpreterError,
 };
 
 use super::{
@@ -22,6 +22,7 @@ struct LValue {
 pub struct StatementAnalyzer<'a> {
     program: &'a mut Program,
     symbol_accesses: &'a mut SymbolAccessMap,
+    depth: usize,
 }
 
 impl<'a> StatementAnalyzer<'a> {
@@ -29,6 +30,7 @@ impl<'a> StatementAnalyzer<'a> {
         StatementAnalyzer {
             program,
             symbol_accesses,
+            depth: 0,
         }
     }
 
@@ -301,7 +303,14 @@ impl<'a> StatementAnalyzer<'a> {
         if let Some(Token::NumericLiteral(_)) = self.program().peek_next_token() {
             self.evaluate_goto_or_gosub_statement()
         } else {
-            self.evaluate_statement()
+            // THEN and ELSE clauses can nest (IF .. THEN IF .. THEN ..).
+            if self.depth == NESTING_LIMIT {
+                return Err(OutOfMemoryError::StackOverflow.into());
+            }
+            self.depth += 1;
+            let result = self.evaluate_statement();
+            self.depth -= 1;
+            result
         }
     }
 }
